@@ -971,6 +971,16 @@ example : WFData (.real "inf".toList) = False ∧
   simp only [WFData, eq_iff_iff, iff_false]
   decide
 
+/-- symbol names with letters outside ASCII are in the domain and round-trip -/
+def uniVal : Val :=
+  .list [.sym "größe".toList, .sym "λ".toList, .chr 'λ', .str "имя 名前 x²".toList,
+    .dict [.list [.sym "имя".toList, .sym "名前".toList]]]
+
+example : WFData uniVal := by decide
+
+example : (rs (kgWrite uniVal)).map (fun p => (kgWrite p.1, p.2)) =
+    some (kgWrite uniVal, (kgWrite uniVal).length) := by decide
+
 example : (fmt (.int (-12))).bind (form (.int (-12))) = some (.int (-12)) :=
   form_inverts_format _ rfl (by decide)
 
